@@ -8,13 +8,13 @@ Definition getst (o : option pst) : pst := match o with Some s => s | None => p0
 
 (* apply fails after the first of two entries: publish() moves the horizon over the batch *)
 Definition wl_trace : list label := [LAcquire 0; LEnqueue 0 2; LApplyFail 0 1; LFinish 0].
-Definition wl_state : pst := Eval vm_compute in getst (prun 8 (p0 7) wl_trace).
-Lemma wl_reach : reach 8 7 wl_trace wl_state.
+Definition wl_state : pst := Eval vm_compute in getst (prun 8 false (p0 7) wl_trace).
+Lemma wl_reach : reach 8 7 false wl_trace wl_state.
 Proof. vm_compute. reflexivity. Qed.
 Lemma wl_visible : failed wl_state 0 = true /\ visible_of wl_state 0 = [(1, 0)] /\ idle 7 wl_state = true.
 Proof. vm_compute. auto. Qed.
 
-Theorem failed_invisible_live_refuted : ~ failed_invisible_live_stmt 8 7.
+Theorem failed_invisible_live_refuted : ~ failed_invisible_live_stmt 8 7 false.
 Proof.
   intro H. destruct wl_visible as [W1 [W2 _]].
   specialize (H wl_trace wl_state 0 wl_reach W1). rewrite W2 in H. discriminate.
@@ -31,19 +31,19 @@ Proof. reflexivity. Qed.
 Definition fail_commit (i : nat) : list label := [LAcquire i; LEnqueue i 1; LWalFail i].
 Definition wq_trace : list label :=
   Eval vm_compute in [LAcquire 0; LEnqueue 0 1] ++ concat (map fail_commit [1; 2; 3; 4; 5; 6; 7]) ++ [LAcquire 8; LEnqueue 8 1].
-Lemma wq_not_a_behaviour : prun 8 (p0 7) wq_trace = None.
+Lemma wq_not_a_behaviour : prun 8 true (p0 7) wq_trace = None.
 Proof. vm_compute. reflexivity. Qed.
 Definition wq_prefix : list label :=
   Eval vm_compute in [LAcquire 0; LEnqueue 0 1] ++ concat (map fail_commit [1; 2; 3; 4; 5; 6]).
-Definition wq_state : pst := Eval vm_compute in getst (prun 8 (p0 7) wq_prefix).
-Lemma wq_reach : reach 8 7 wq_prefix wq_state.
+Definition wq_state : pst := Eval vm_compute in getst (prun 8 true (p0 7) wq_prefix).
+Lemma wq_reach : reach 8 7 true wq_prefix wq_state.
 Proof. vm_compute. reflexivity. Qed.
 Lemma wq_blocked : p_panic wq_state = false /\ length (p_q wq_state) = 7 /\ p_free wq_state = 0 /\
-                   pstep 8 wq_state (LAcquire 7) = None /\ pstep 8 wq_state (LFinish 1) = None.
+                   pstep 8 true wq_state (LAcquire 7) = None /\ pstep 8 true wq_state (LFinish 1) = None.
 Proof. vm_compute. auto. Qed.
 (* once committer 0 has applied, everything drains: all seven commits return, queue empty, permits free *)
 Definition wq_drain : list label := Eval vm_compute in LApplyOk 0 :: map LFinish [0; 1; 2; 3; 4; 5; 6].
-Lemma wq_drains : match prun 8 wq_state wq_drain with
+Lemma wq_drains : match prun 8 true wq_state wq_drain with
                   | Some s => idle 7 s = true /\ failed s 1 = true /\ failed s 6 = true /\ failed s 0 = false
                   | None => False end.
 Proof. vm_compute. auto. Qed.
@@ -79,6 +79,7 @@ Qed.
 Section Live.
 Variable SLOTS : nat.
 Variable PERMITS : nat.
+Variable ATOMIC : bool.
 
 (* the phases a committer goes through once its batch is in the memtable in full *)
 Definition landed (p : phase) : bool := match p with PWait true | PDone true => true | _ => false end.
@@ -104,7 +105,7 @@ Proof.
   intros. unfold applied_and_publish. destruct (publish (q_mark i (p_q s)) (p_visible s)) as [q' v']. auto.
 Qed.
 
-Lemma J_step : forall s t l s', J s t -> pstep SLOTS s l = Some s' -> J s' (t ++ [l]).
+Lemma J_step : forall s t l s', J s t -> pstep SLOTS ATOMIC s l = Some s' -> J s' (t ++ [l]).
 Proof.
   intros s t l s' HJ Hs i. specialize (HJ i). unfold pstep in Hs.
   destruct (p_panic s); [discriminate|].
@@ -141,7 +142,7 @@ Proof.
     rewrite filter_app, filter_owner_other, app_nil_r by auto. rewrite ph_get_set_other by auto.
     destruct HJ as [E|[E|E]]; auto.
   - destruct (ph_get j (p_ph s)) eqn:Ep; try discriminate. destruct (q_find j (p_q s)) as [e|]; [|discriminate].
-    destruct (k <? e_cnt e); [|discriminate].
+    destruct ((k <? e_cnt e) && (negb ATOMIC || Nat.eqb k 0)); [|discriminate].
     inversion Hs; subst. destruct (aap_fields s j (p_mem s ++ seq_entries (e_seq e) k j) (PWait false)) as [A [Bq _]].
     unfold entries_of. rewrite A, Bq.
     destruct (Nat.eq_dec i j) as [->|Hne].
@@ -157,11 +158,11 @@ Proof.
     rewrite ph_get_set_other by auto. destruct HJ as [E|[E|E]]; auto.
 Qed.
 
-Lemma J_run : forall t2 s t1 s', J s t1 -> prun SLOTS s t2 = Some s' -> J s' (t1 ++ t2).
+Lemma J_run : forall t2 s t1 s', J s t1 -> prun SLOTS ATOMIC s t2 = Some s' -> J s' (t1 ++ t2).
 Proof.
   induction t2 as [|l t2 IH]; intros s t1 s' HJ Hr; cbn [prun] in Hr.
   - inversion Hr; subst. now rewrite app_nil_r.
-  - destruct (pstep SLOTS s l) as [s1|] eqn:Es; [|discriminate].
+  - destruct (pstep SLOTS ATOMIC s l) as [s1|] eqn:Es; [|discriminate].
     replace (t1 ++ l :: t2) with ((t1 ++ [l]) ++ t2) by (rewrite <- app_assoc; reflexivity).
     eapply IH; [|exact Hr]. eapply J_step; eauto.
 Qed.
@@ -174,12 +175,12 @@ Proof.
 Qed.
 End Live.
 
-Theorem failed_invisible_live_outside_known : forall SLOTS PERMITS,
-  failed_invisible_live_outside_known_stmt SLOTS PERMITS.
+Theorem failed_invisible_live_outside_known : forall SLOTS PERMITS ATOMIC,
+  failed_invisible_live_outside_known_stmt SLOTS PERMITS ATOMIC.
 Proof.
-  intros SLOTS PERMITS t s i Hr Hf Hk. unfold reach in Hr.
+  intros SLOTS PERMITS ATOMIC t s i Hr Hf Hk. unfold reach in Hr.
   assert (HJ0 : J (p0 PERMITS) []) by (intros j; left; reflexivity).
-  pose proof (J_run SLOTS t (p0 PERMITS) [] s HJ0 Hr i) as HJ. cbn [app] in HJ.
+  pose proof (J_run SLOTS ATOMIC t (p0 PERMITS) [] s HJ0 Hr i) as HJ. cbn [app] in HJ.
   assert (He : entries_of s i = []).
   { destruct HJ as [E|[E|E]]; auto.
     - unfold failed in Hf. destruct (ph_get i (p_ph s)) as [| | | |[|]]; discriminate.
@@ -201,17 +202,18 @@ Qed.
 Section Seq.
 Variable SLOTS : nat.
 Variable PERMITS : nat.
+Variable ATOMIC : bool.
 
 Lemma st_acquire : forall s i f, p_panic s = false -> ph_get i (p_ph s) = PIdle -> p_free s = S f ->
-  pstep SLOTS s (LAcquire i) = Some (upd s f (p_q s) (ph_set i PPermit (p_ph s)) (p_next s) (p_visible s) (p_mem s)).
+  pstep SLOTS ATOMIC s (LAcquire i) = Some (upd s f (p_q s) (ph_set i PPermit (p_ph s)) (p_next s) (p_visible s) (p_mem s)).
 Proof. intros s i f H1 H2 H3. unfold pstep. rewrite H1, H2, H3. reflexivity. Qed.
 
 Lemma st_conflict : forall s i, p_panic s = false -> ph_get i (p_ph s) = PPermit ->
-  pstep SLOTS s (LConflict i) = Some (upd s (S (p_free s)) (p_q s) (ph_set i (PDone false) (p_ph s)) (p_next s) (p_visible s) (p_mem s)).
+  pstep SLOTS ATOMIC s (LConflict i) = Some (upd s (S (p_free s)) (p_q s) (ph_set i (PDone false) (p_ph s)) (p_next s) (p_visible s) (p_mem s)).
 Proof. intros s i H1 H2. unfold pstep. rewrite H1, H2. reflexivity. Qed.
 
 Lemma st_enqueue : forall s i c, p_panic s = false -> ph_get i (p_ph s) = PPermit -> length (p_q s) < SLOTS ->
-  pstep SLOTS s (LEnqueue i (S c)) =
+  pstep SLOTS ATOMIC s (LEnqueue i (S c)) =
   Some (upd s (p_free s) (p_q s ++ [{| e_id := i; e_seq := p_next s; e_cnt := S c; e_applied := false |}])
             (ph_set i PQueued (p_ph s)) (p_next s + S c) (p_visible s) (p_mem s)).
 Proof.
@@ -231,13 +233,13 @@ Proof.
 Qed.
 
 Lemma st_finish : forall s i ok, p_panic s = false -> ph_get i (p_ph s) = PWait ok -> p_q s = [] ->
-  pstep SLOTS s (LFinish i) = Some (upd s (S (p_free s)) (p_q s) (ph_set i (PDone ok) (p_ph s)) (p_next s) (p_visible s) (p_mem s)).
+  pstep SLOTS ATOMIC s (LFinish i) = Some (upd s (S (p_free s)) (p_q s) (ph_set i (PDone ok) (p_ph s)) (p_next s) (p_visible s) (p_mem s)).
 Proof. intros s i ok H1 H2 H3. unfold pstep. rewrite H1, H2, H3. reflexivity. Qed.
 
 (* marking the only entry applied, publishing and finishing leaves an idle pipeline *)
 Lemma seq_tail : forall s i e mem ok P,
   p_panic s = false -> p_q s = [e] -> e_id e = i -> p_free s = P ->
-  exists s', pstep SLOTS (applied_and_publish s i mem (PWait ok)) (LFinish i) = Some s' /\
+  exists s', pstep SLOTS ATOMIC (applied_and_publish s i mem (PWait ok)) (LFinish i) = Some s' /\
              idle (S P) s' = true /\ p_ph s' = ph_set i (PDone ok) (ph_set i (PWait ok) (p_ph s)).
 Proof.
   intros s i e mem ok P Hp Hq He Hf. rewrite (aap_single s i e mem _ Hq He).
@@ -246,27 +248,27 @@ Proof.
 Qed.
 End Seq.
 
-Theorem pipeline_not_poisoned_sequential : forall SLOTS PERMITS,
-  pipeline_not_poisoned_sequential_stmt SLOTS PERMITS.
+Theorem pipeline_not_poisoned_sequential : forall SLOTS PERMITS ATOMIC,
+  pipeline_not_poisoned_sequential_stmt SLOTS PERMITS ATOMIC.
 Proof.
-  intros SLOTS PERMITS HP HS s i cnt k tr Hidle Hph Hcnt Hk Hin.
+  intros SLOTS PERMITS ATOMIC HP HS s i cnt k tr Hidle Hph Hcnt Hk Hk0 Hin.
   destruct (idle_inv _ _ Hidle) as [Hfree [Hq Hpan]].
   destruct PERMITS as [|P]; [lia|]. destruct cnt as [|c]; [lia|].
   set (s1 := upd s P (p_q s) (ph_set i PPermit (p_ph s)) (p_next s) (p_visible s) (p_mem s)).
-  assert (E1 : pstep SLOTS s (LAcquire i) = Some s1) by (apply st_acquire; auto).
+  assert (E1 : pstep SLOTS ATOMIC s (LAcquire i) = Some s1) by (apply st_acquire; auto).
   assert (P1 : p_panic s1 = false /\ ph_get i (p_ph s1) = PPermit /\ p_q s1 = [] /\ p_free s1 = P).
   { unfold s1. cbn [upd p_panic p_ph p_q p_free]. rewrite ph_get_set_same. auto. }
   destruct P1 as [Pa [Pb [Pc Pd]]].
   set (e := {| e_id := i; e_seq := p_next s1; e_cnt := S c; e_applied := false |}).
   set (s2 := upd s1 (p_free s1) (p_q s1 ++ [e]) (ph_set i PQueued (p_ph s1)) (p_next s1 + S c) (p_visible s1) (p_mem s1)).
-  assert (E2 : pstep SLOTS s1 (LEnqueue i (S c)) = Some s2).
+  assert (E2 : pstep SLOTS ATOMIC s1 (LEnqueue i (S c)) = Some s2).
   { apply st_enqueue; auto. rewrite Pc. cbn. lia. }
   assert (P2 : p_panic s2 = false /\ ph_get i (p_ph s2) = PQueued /\ p_q s2 = [e] /\ p_free s2 = P).
   { unfold s2. cbn [upd p_panic p_ph p_q p_free]. rewrite ph_get_set_same, Pc. auto. }
   destruct P2 as [Qa [Qb [Qc Qd]]].
-  assert (Htail : forall mem ok, exists s', pstep SLOTS (applied_and_publish s2 i mem (PWait ok)) (LFinish i) = Some s' /\
+  assert (Htail : forall mem ok, exists s', pstep SLOTS ATOMIC (applied_and_publish s2 i mem (PWait ok)) (LFinish i) = Some s' /\
              idle (S P) s' = true /\ (forall j, j <> i -> ph_get j (p_ph s') = ph_get j (p_ph s))).
-  { intros mem ok. destruct (seq_tail SLOTS s2 i e mem ok P Qa Qc eq_refl Qd) as [s' [A [Bq Cq]]].
+  { intros mem ok. destruct (seq_tail SLOTS ATOMIC s2 i e mem ok P Qa Qc eq_refl Qd) as [s' [A [Bq Cq]]].
     exists s'. split. exact A. split. exact Bq. intros j Hj. rewrite Cq. unfold s2, s1. cbn [upd p_ph].
     now rewrite !ph_get_set_other by auto. }
   cbn [commit_paths In] in Hin.
@@ -277,7 +279,9 @@ Proof.
   - rewrite E2. unfold pstep at 1. rewrite Qa, Qb.
     destruct (Htail (p_mem s2) false) as [s' [A Bq]]. rewrite A. exists s'. auto.
   - rewrite E2. unfold pstep at 1. rewrite Qa, Qb, Qc. cbn [q_find e_id e]. rewrite Nat.eqb_refl. cbn [e_cnt e].
-    destruct (k <? S c) eqn:Ek; [|apply Nat.ltb_ge in Ek; lia].
+    assert (Ek : ((k <? S c) && (negb ATOMIC || Nat.eqb k 0)) = true).
+    { apply andb_true_iff. split. apply Nat.ltb_lt; lia. destruct ATOMIC; [|reflexivity]. rewrite (Hk0 eq_refl). reflexivity. }
+    rewrite Ek.
     destruct (Htail (p_mem s2 ++ seq_entries (e_seq e) k i) false) as [s' [A Bq]]. cbn [e_seq e] in *. rewrite A. exists s'. auto.
   - rewrite E2. unfold pstep at 1. rewrite Qa, Qb, Qc. cbn [q_find e_id e]. rewrite Nat.eqb_refl.
     destruct (Htail (p_mem s2 ++ seq_entries (e_seq e) (e_cnt e) i) true) as [s' [A Bq]]. cbn [e_seq e_cnt e] in *. rewrite A. exists s'. auto.
@@ -356,6 +360,7 @@ Qed.
 Section Cover.
 Variable SLOTS : nat.
 Variable PERMITS : nat.
+Variable ATOMIC : bool.
 Hypothesis HPS : PERMITS < SLOTS.
 
 Record KInv (s : pst) : Prop := {
@@ -443,7 +448,7 @@ Proof.
   - exact (k_nopanic s K).
 Qed.
 
-Lemma K_step : forall s l s', KInv s -> pstep SLOTS s l = Some s' -> KInv s'.
+Lemma K_step : forall s l s', KInv s -> pstep SLOTS ATOMIC s l = Some s' -> KInv s'.
 Proof.
   intros s l s' K Hs. unfold pstep in Hs. rewrite (k_nopanic s K) in Hs.
   pose proof (k_perm s K) as Hperm.
@@ -510,7 +515,7 @@ Proof.
     apply (K_after_publish s i q' v' true K Hpub Ep).
   - (* apply fails: as the WAL failure, with the inserted prefix in the memtable *)
     destruct (ph_get i (p_ph s)) eqn:Ep; try discriminate. destruct (q_find i (p_q s)) as [e0|]; [|discriminate].
-    destruct (k <? e_cnt e0); [|discriminate]. inversion Hs; subst. clear Hs.
+    destruct ((k <? e_cnt e0) && (negb ATOMIC || Nat.eqb k 0)); [|discriminate]. inversion Hs; subst. clear Hs.
     unfold applied_and_publish. destruct (publish (q_mark i (p_q s)) (p_visible s)) as [q' v'] eqn:Hpub.
     apply (K_after_publish s i q' v' false K Hpub Ep).
   - (* finish *)
@@ -527,19 +532,48 @@ Proof.
     + exact (k_nopanic s K).
 Qed.
 
-Lemma K_run : forall t s s', KInv s -> prun SLOTS s t = Some s' -> KInv s'.
+Lemma K_run : forall t s s', KInv s -> prun SLOTS ATOMIC s t = Some s' -> KInv s'.
 Proof.
   induction t as [|l t IH]; intros s s' K Hr; cbn [prun] in Hr.
   - inversion Hr; subst. exact K.
-  - destruct (pstep SLOTS s l) as [s1|] eqn:Es; [|discriminate].
+  - destruct (pstep SLOTS ATOMIC s l) as [s1|] eqn:Es; [|discriminate].
     eapply IH; [|exact Hr]. eapply K_step; eauto.
 Qed.
 End Cover.
 
 (* the full statement: no overflow, and the queue plus the free permits never exceed the permits *)
-Theorem pipeline_not_poisoned : forall SLOTS PERMITS, pipeline_not_poisoned_stmt SLOTS PERMITS.
+Theorem pipeline_not_poisoned : forall SLOTS PERMITS ATOMIC, pipeline_not_poisoned_stmt SLOTS PERMITS ATOMIC.
 Proof.
-  intros SLOTS PERMITS HPS t s Hr. unfold reach in Hr.
-  pose proof (K_run SLOTS PERMITS HPS t (p0 PERMITS) s (K0 PERMITS) Hr) as K.
+  intros SLOTS PERMITS ATOMIC HPS t s Hr. unfold reach in Hr.
+  pose proof (K_run SLOTS PERMITS ATOMIC HPS t (p0 PERMITS) s (K0 PERMITS) Hr) as K.
   split. { destruct K; assumption. } eapply K_bound; eauto.
 Qed.
+
+(* ------------------------------------------------------------------ all-or-nothing add: the plain statement in full *)
+Lemma atomic_no_partial : forall SLOTS t s s', prun SLOTS true s t = Some s' -> known_partial_apply t = false.
+Proof.
+  intros SLOTS. induction t as [|l t IH]; intros s s' Hr. reflexivity.
+  cbn [prun] in Hr. destruct (pstep SLOTS true s l) as [s1|] eqn:Es; [|discriminate].
+  unfold known_partial_apply in *. cbn [existsb]. rewrite (IH _ _ Hr), orb_false_r.
+  destruct l as [i|i|i c|i|i|i k|i]; auto. destruct k as [|k]; [reflexivity|].
+  unfold pstep in Es. destruct (p_panic s); [discriminate|].
+  destruct (ph_get i (p_ph s)); try discriminate. destruct (q_find i (p_q s)); [|discriminate].
+  cbn [negb orb Nat.eqb] in Es. rewrite andb_false_r in Es. discriminate.
+Qed.
+
+Theorem failed_invisible_live_full : forall SLOTS PERMITS ATOMIC, failed_invisible_live_full_stmt SLOTS PERMITS ATOMIC.
+Proof.
+  intros SLOTS PERMITS ATOMIC -> t s i Hr Hf.
+  apply (failed_invisible_live_outside_known SLOTS PERMITS true t s i Hr Hf).
+  exact (atomic_no_partial SLOTS t _ _ Hr).
+Qed.
+
+(* the old partial-apply trace is no behaviour of the all-or-nothing add *)
+Lemma wl_not_a_behaviour : prun 8 true (p0 7) wl_trace = None.
+Proof. vm_compute. reflexivity. Qed.
+(* the same commit failing in apply now: nothing of it is in the memtable *)
+Definition wl0_trace : list label := [LAcquire 0; LEnqueue 0 2; LApplyFail 0 0; LFinish 0].
+Lemma wl0_invisible : match prun 8 true (p0 7) wl0_trace with
+                      | Some s => failed s 0 = true /\ entries_of s 0 = [] /\ p_visible s = 2 /\ idle 7 s = true
+                      | None => False end.
+Proof. vm_compute. auto. Qed.
